@@ -60,4 +60,25 @@ def specAlts (s : State) : Op → Vec.Vec → List Vec.Vec
   | .reduce _, v => [v]
   | .reserve h _ t, v => v :: (if typeDiffers s h t then [[]] else [])
 
+/-- the handle is the only owner of a writable buffer of element type `t` -/
+def ownsB (s : State) (h : Nat) (t : Option Traits) : Bool :=
+  match (s.handle h).bind s.buf? with
+  | some x => decide (x.ref = 1) && !x.immutable && decide (x.traits = t)
+  | none => false
+
+/-- ... or it is empty -/
+def freeB (s : State) (h : Nat) (t : Option Traits) : Bool := (s.handle h).isNone || ownsB s h t
+
+/-- S: operations that may NOT be refused (`old` = the value of the handle): raw append/insert on an empty handle or
+    an own writable untyped buffer, set of whole plain elements at a position inside or behind the data of an own
+    writable buffer of that type (or an empty handle), a cut inside the data of an own writable untyped buffer -/
+def mustSucceed (s : State) : Op → Vec.Vec → Bool
+  | .append h _, _ => freeB s h none
+  | .insert h _ _, _ => freeB s h none
+  | .set h t off bytes _, v =>
+    (!t.init && t.fini.isNone && decide (t.size ≠ 0)) && freeB s h (some t) && decide (bytes.length % t.size = 0) &&
+      (Vec.setAt v t.size off bytes).isSome
+  | .cut h off len, v => ownsB s h none && (Vec.cut v off len).isSome
+  | _, _ => false
+
 end Mpt.Heap
